@@ -283,6 +283,11 @@ def stripAddrRow (cfg : Cfg) : AddrRow → AddrRow
   | .scr k kind true e => if kind = 1 || !cfg.t1 then .scr k kind true none else .scr k kind true e
   | r => r
 
+/-- address rows `deletePrivateKeys` re-writes: imported keys, p2sh scripts, secret witness scripts (and whatever it changes) -/
+def emitted (cfg : Cfg) (r : AddrRow) : Bool :=
+  stripAddrRow cfg r != r ||
+    (match r with | .imp .. => true | .scr _ 0 _ _ => true | .scr _ 1 true _ => true | _ => false)
+
 def isDflt : AcctRow K P → Bool
   | .dflt .. => true
   | _ => false
@@ -293,8 +298,7 @@ def stripScope (cfg : Cfg) (sc : Scope) (sd : ScopeDisk K P) : ScopeDisk K P × 
   let rows :=
     [{ del := true, path := scPath sc "", key := .plain "ctpriv" : Row }] ++
     ((accts.filter fun e => isDflt e.2).map fun e => acctRowPut sc e.1 e.2) ++
-    ((sd.addrs.filter fun e => stripAddrRow cfg e.2 != e.2 ||
-        (match e.2 with | .imp .. => true | .scr _ 0 _ _ => true | .scr _ 1 true _ => true | _ => false)).map
+    ((sd.addrs.filter fun e => emitted cfg e.2).map
       fun e => { path := scPath sc "addr", key := addrKeySym sc e.1 e.2, val := addrRowSym (stripAddrRow cfg e.2) : Row })
   ({ sd with coinPriv := none, accts := accts, addrs := addrs }, rows)
 
